@@ -99,6 +99,24 @@ def big_case(logic, n, seed):
     for name, got in (('mv_not', logic.mv_not(a)), ('bp8v_not', call_bp(logic, 8, 'not', a[np.newaxis]))):
         if not np.array_equal(np.asarray(got), TN[a]):
             return name, first(got, TN[a])
+    # the same data as a signals x patterns MATRIX whose LAST axis is the long one, with and without out=, one operand broadcast
+    rows = 3
+    A = np.stack([np.roll(a, k) for k in range(rows)])
+    B = np.stack([np.roll(b, 2 * k + 1) for k in range(rows)])
+    for op in ('and', 'or', 'xor'):
+        fn = getattr(logic, f'mv_{op}')
+        for what, x, y in (('matrix', A, B), ('matrix x row', A, b), ('column x matrix', A[:, :1], B)):
+            exp = T2[op][np.broadcast_arrays(x, y)[0], np.broadcast_arrays(x, y)[1]]
+            o = np.full(exp.shape, 0xee, dtype=np.uint8)
+            for how, got in (('', fn(x, y)), (' out=', fn(x, y, out=o))):
+                if not np.array_equal(np.asarray(got), exp):
+                    i = tuple(int(v) for v in np.argwhere(np.asarray(got) != exp)[0])
+                    return f'mv_{op}', f'n={n} seed={seed}: {what}{how} of shape {exp.shape}: element {i} is {int(np.asarray(got)[i])}, the algebra gives {int(exp[i])}'
+    o = np.full(A.shape, 0xee, dtype=np.uint8)
+    for how, got in (('', logic.mv_not(A)), (' out=', logic.mv_not(A, out=o))):
+        if not np.array_equal(np.asarray(got), TN[A]):
+            i = tuple(int(v) for v in np.argwhere(np.asarray(got) != TN[A])[0])
+            return 'mv_not', f'n={n} seed={seed}: matrix{how} of shape {A.shape}: element {i} is {int(np.asarray(got)[i])}, the algebra gives {int(TN[A][i])}'
     return None
 
 
